@@ -364,6 +364,18 @@ def scanner_typestate(f, ptr_pred, rule, R, what, ctype_ok=('isspace', 'isdigit'
                 if 0 in (e.notin or []):
                     return 'cur?'
                 return st
+        # `switch (*p)`: the labels classify the byte under the pointer
+        if e.label in ('case', 'default') and e.cond is not None and cur_test(e.cond) and (st in ('cur?', 'curNZ', 'curZ', 'inner') or is_nz(st)):
+            if e.label == 'case':
+                vs = e.vs or []
+                if vs and all(x != 0 for x in vs):
+                    return None if st == 'curZ' else (st if is_nz(st) else 'curNZ')
+                if vs and all(x == 0 for x in vs):
+                    return None if is_nz(st) else ('inner' if st == 'inner' else 'curZ')
+                return st
+            if 0 in (e.notin or []):
+                return None if st == 'curZ' else (st if is_nz(st) else 'curNZ')
+            return st
         r = rules.edge_rel(e)
         if not r:
             return st
